@@ -36,7 +36,10 @@ GRIDCFG = ['one-uniform', 'one-log', 'two-nested-uniform', 'two-offgrid-uniform'
            'two-offgrid-coarsefirst-uniform', 'two-samelen-offset-uniform', 'two-samelen-offset-log',
            # the second molecule's points nearly coincide with the first one's (the same line list re-calibrated by a
            # few parts per million): they are still other points
-           'two-samelen-ppm-uniform', 'two-samelen-ppm-log']
+           'two-samelen-ppm-uniform', 'two-samelen-ppm-log',
+           # the second molecule is tabulated over the middle of the range only: requests wholly beyond one of its
+           # ends see its edge value, exactly as the full computation does at those wavenumbers
+           'two-narrow-uniform', 'two-narrow-log']
 MAGS = {'thin': 1e-31, 'tau1': 1e-27, 'mixed': 1.0}
 
 
@@ -55,7 +58,9 @@ def install(cfg, mag, kind):
     grids = {'H2O': nat}
     tabs = {'H2O': t1}
     if cfg.startswith('two'):
-        if 'ppm' in cfg:
+        if 'narrow' in cfg:
+            cg = (nat + 0.3 * np.gradient(nat))[12:28]
+        elif 'ppm' in cfg:
             cg = nat * (1.0 + 5e-6)
         elif 'samelen' in cfg:     # same number of points as the finest grid, shifted by 40 % of a spacing
             cg = nat + 0.4 * np.gradient(nat)
